@@ -698,6 +698,11 @@ func runC03(c *core.Ctx) {
 						var root *ggql.Root
 						switch mode {
 						case 0: // reflection all the way
+							if p, ok := v.(c03Pair); ok {
+								// two Go types behind one position: the second meets whatever was bound for the first
+								root = ggql.NewRoot(&c03OddSchema{Query: &c03OddQuery{Node: p.a, Nodes: []interface{}{p.a, nil, p.b}, U: p.b, Us: []interface{}{p.a, p.b}, A: p.a, As: []interface{}{p.a, p.b}}})
+								break
+							}
 							root = ggql.NewRoot(&c03OddSchema{Query: &c03OddQuery{Node: v, Nodes: []interface{}{v, nil, v}, U: v, Us: []interface{}{v}, A: v, As: []interface{}{v, v}}})
 						case 1: // a Resolver at the top hands the value out
 							root = ggql.NewRoot(c03OddResolver{v})
@@ -1024,7 +1029,33 @@ var c03StrangerValues = []func() interface{}{
 	func() interface{} { return []interface{}{&c03Stranger{ID: "l"}} },
 	func() interface{} { return func() {} },
 	func() interface{} { var p *int; return &p },
+	// a struct whose unexported field is named like the schema field, with the exported getter Go code usually has beside it
+	func() interface{} { return &c03Hidden{id: "h"} },
+	func() interface{} { return c03Hidden{id: "hv"} },
+	// two Go types that both fit the object type, in one list / one after the other: methods bound for the first meet the second
+	func() interface{} { return c03Pair{c03StrangerM{}, c03StrangerN{}} },
+	func() interface{} { return c03Pair{&c03StrangerP{}, &c03StrangerQ{}} },
+	func() interface{} { return c03Pair{&c03Stranger{ID: "s"}, &c03StrangerP{}} },
+	func() interface{} { return c03Pair{&c03StrangerP{}, &c03Stranger{ID: "s"}} },
+	func() interface{} { return c03Pair{&c03Stranger{ID: "s"}, &c03Hidden{id: "h"}} },
 }
+
+type c03Pair struct{ a, b interface{} }
+type c03Hidden struct{ id string }
+
+func (h c03Hidden) ID() string { return "got:" + h.id }
+
+type c03StrangerN struct{}
+
+func (c03StrangerN) Id() string { return "n" }
+
+type c03StrangerP struct{ N int }
+
+func (p *c03StrangerP) Id() string { return "p" }
+
+type c03StrangerQ struct{ S string }
+
+func (q *c03StrangerQ) Id() string { return "q" }
 
 type c03OddSchema struct{ Query *c03OddQuery }
 type c03OddQuery struct {
@@ -1043,7 +1074,13 @@ func (r c03OddResolver) Resolve(field *ggql.Field, args map[string]interface{}) 
 	case "query":
 		return r, nil
 	case "nodes", "us", "as":
+		if p, ok := r.v.(c03Pair); ok {
+			return []interface{}{p.a, p.b}, nil
+		}
 		return []interface{}{r.v, r.v}, nil
+	}
+	if p, ok := r.v.(c03Pair); ok {
+		return p.a, nil
 	}
 	return r.v, nil
 }
@@ -1056,7 +1093,13 @@ func (r *c03OddAny) Resolve(obj interface{}, field *ggql.Field, args map[string]
 		case "query":
 			return r, nil
 		case "nodes", "us", "as":
+			if p, ok := r.v.(c03Pair); ok {
+				return []interface{}{p.a, p.b}, nil
+			}
 			return []interface{}{r.v, r.v}, nil
+		}
+		if p, ok := r.v.(c03Pair); ok {
+			return p.a, nil
 		}
 		return r.v, nil
 	}
